@@ -80,6 +80,7 @@ class Evaluator:
         self.loops = []          # enclosing loop nodes (one symbolic iteration is evaluated)
         self.top_body = None
         self.fallthrough_pc = ()
+        self.search_hit = None
         self.newtypes = self._numeric_newtypes()
         T.register_enums(crate.adts)
         self.unknown = []        # constructs evaluated as opaque
@@ -234,6 +235,20 @@ class Evaluator:
             return self.closures[fv[1]]
         return None
 
+    def first_of(self, it):
+        """`next()` of a filtering pipeline is a search: first(source, predicate), possibly mapped"""
+        it = T.unroot(it)
+        if isinstance(it, tuple) and it and it[0] == 'map' and it[2][0] == 'lam':
+            inner = self.first_of(it[1])
+            if inner is not None and inner[0] == 'first':
+                return ('optmap', inner, it[2])
+            return None
+        if isinstance(it, tuple) and it and it[0] == 'filter' and it[2][0] == 'lam':
+            return ('first', it[1], it[2])
+        if isinstance(it, tuple) and it and it[0] == 'skip_while' and it[2][0] == 'lam' and T.is_bool(it[2][2]):
+            return ('first', it[1], ('lam', it[2][1], T.tnot(it[2][2])))
+        return None
+
     def norm_sum_iter(self, it):
         """sum over filter(X, p).map(f)  ==  sum over X.map(|x| if p(x) {f(x)} else {0})"""
         it = T.unroot(it)
@@ -288,7 +303,11 @@ class Evaluator:
             short = name.split('::')[-1]
             v = T.unroot(val)
             for i, q in enumerate(p['ps']):
-                if isinstance(v, tuple) and v and v[0] in ('some', 'ok', 'err') and short.lower() == v[0] and i == 0:
+                if isinstance(v, tuple) and v and v[0] in ('optproj', 'optmap') and isinstance(v[1], tuple) and v[1] and v[1][0] == 'first' \
+                        and short == 'Some' and i == 0:
+                    hit = ('case', v[1], 'Some', 0)
+                    self.bind(q, T.proj(hit, v[2]) if v[0] == 'optproj' else T.substitute(v[2][2], {T.bv(v[2][1]): hit}), env)
+                elif isinstance(v, tuple) and v and v[0] in ('some', 'ok', 'err') and short.lower() == v[0] and i == 0:
                     self.bind(q, v[1], env)
                 else:
                     self.bind(q, ('case', v, short, i), env)
@@ -386,9 +405,22 @@ class Evaluator:
                     return self.join(cond, val, restv)
                 if e.get('k') == 'Ret':
                     return self.ev(e, env, body, depth)
+                self.search_hit = None
                 self.ev(e, env, body, depth)
+                if self.search_hit is not None:
+                    cond, val = self.search_hit
+                    self.search_hit = None
+                    rest = {'k': 'Block', 'stmts': stmts[idx + 1:], 'expr': b.get('expr')}
+                    restv = self.with_pc([T.tnot(cond)], lambda: self.ev_block(rest, env, body, depth))
+                    return self.join(cond, ('ret', val), restv)
         if b.get('expr') is not None:
-            return self.ev(b['expr'], env, body, depth)
+            self.search_hit = None
+            v = self.ev(b['expr'], env, body, depth)
+            if self.search_hit is not None:
+                cond, val = self.search_hit
+                self.search_hit = None
+                return self.join(cond, ('ret', val), v)
+            return v
         return ('unit',)
 
     def early_return(self, e, env, body, depth):
@@ -426,12 +458,12 @@ class Evaluator:
         return None
 
     def join(self, cond, a, b):
-        if a == ('never',):
-            return b
-        if b == ('never',):
-            return a
         ra = a[1] if isinstance(a, tuple) and a and a[0] == 'ret' else a
         rb = b[1] if isinstance(b, tuple) and b and b[0] == 'ret' else b
+        if ra == ('never',):
+            return rb
+        if rb == ('never',):
+            return ra
         if T.is_lin(ra) or T.is_lin(rb) or T.is_bool(ra):
             try:
                 return T.ite(cond, ra, rb)
@@ -720,6 +752,10 @@ class Evaluator:
                 return None
             su = T.unroot(scrut)
             short = path.split('::')[-1]
+            view = None
+            if isinstance(su, tuple) and su and su[0] in ('optproj', 'optmap') and isinstance(su[1], tuple) and su[1] and su[1][0] == 'first':
+                view = su           # an Option computed from a search: test the search, project the hit
+                su = su[1]
             if short == 'None':
                 base = T.tnot(('matches', su, 'Some'))
             elif short == 'Err':
@@ -732,6 +768,8 @@ class Evaluator:
             if k == 'TupleStruct':
                 for i, q in enumerate(p['ps']):
                     v = su[1] if (isinstance(su, tuple) and su and su[0] in ('some', 'ok', 'err') and i == 0) else ('case', su, short, i)
+                    if view is not None and short == 'Some' and i == 0:
+                        v = T.proj(v, view[2]) if view[0] == 'optproj' else T.substitute(view[2][2], {T.bv(view[2][1]): v})
                     c = self.full_pattern_cond(q, v)
                     if c is None:
                         return None
@@ -893,7 +931,60 @@ class Evaluator:
                 self.loops.pop()
             self.havoc(e, env)
             self.reduce_accumulators(e, itn, item, facts, snapshot, env, ev_mark)
+            self.reduce_search(e, itn, item, facts, ev_mark)
         return ('unit',)
+
+    def item_abstraction(self, item, x):
+        """substitution expressing the loop's item roots through one value x (the item of the iterator)"""
+        iu = T.unroot(item)
+        if isinstance(iu, tuple) and iu and iu[0] in ('item', 'index_of'):
+            return {iu: x}
+        if isinstance(iu, tuple) and iu and iu[0] == 'tup':
+            sub = {}
+            for i, comp in enumerate(iu[1]):
+                cu = T.unroot(comp)
+                if isinstance(cu, tuple) and cu and cu[0] in ('item', 'index_of'):
+                    sub[cu] = T.proj(x, i)
+                elif isinstance(cu, tuple) and cu and cu[0] == 'tup':
+                    inner = self.item_abstraction(comp, T.proj(x, i))
+                    if inner is None:
+                        return None
+                    sub.update(inner)
+                else:
+                    return None
+            return sub
+        return None
+
+    def reduce_search(self, loopnode, it, item, facts, ev_mark):
+        """a `for` loop whose only effect is `if cond(item) { return v(item) }` is a search for the first matching item:
+        first(it, cond); the function returns v(that item) if there is one"""
+        if it is None:
+            return
+        nid = loopnode.get('_nid')
+        inner = [x for x in self.events[ev_mark:] if x['depth'] == len(self.stack) and x['loops'] and x['loops'][-1] == nid]
+        deeper = [x for x in self.events[ev_mark:] if nid in x['loops'] and (not x['loops'] or x['loops'][-1] != nid)]
+        deeper = [x for x in deeper if x['kind'] in ('ret', 'assign', 'break', 'mutcall', 'loop')]
+        inner = [x for x in inner if x['kind'] in ('ret', 'assign', 'break', 'mutcall', 'loop')]
+        if deeper or len(inner) != 1 or inner[0]['kind'] != 'ret' or len(self.loops) > 0:
+            return
+        r = inner[0]
+        base_pc = len(self.pc) + len([f for f in facts if f != T.TRUE])
+        cond = T.tand(*r['pc'][base_pc:]) if len(r['pc']) >= base_pc else None
+        if cond is None or cond == T.TRUE:
+            return
+        d = self.bvd
+        sub = self.item_abstraction(item, T.bv(d))
+        if sub is None:
+            return
+        F = ('first', it, ('lam', d, T.substitute(cond, sub)))
+        hit = ('case', F, 'Some', 0)
+        sub2 = self.item_abstraction(item, hit)
+        val = T.substitute(r['value'], sub2)
+        self.search_hit = (('matches', F, 'Some'), val)
+        for x in self.events:
+            if x['kind'] == 'loop' and x['node'] is loopnode:
+                x['reduced'] = True
+        r['joined'] = True
 
     def reduce_accumulators(self, loopnode, it, item, facts, before, env, ev_mark):
         """A `for` loop whose only effects are  acc = acc + g(item)  /  acc = max(acc, g(item))  /  acc = min(acc, g(item))
@@ -1242,7 +1333,8 @@ class Evaluator:
             if lid is not None and lid in env and e['recv'].get('k') in ('Path',) or (lid is not None and lid in env and self.place_text(e['recv']).count('.') == 0):
                 env[lid] = ('sorted', self.as_iter(recv))
                 return ('unit',)
-        if any('Mut' in a and 'Borrow' in a for a in adj) or e.get('recv_ty', '').startswith('&mut'):
+        if (any('Mut' in a and 'Borrow' in a for a in adj) or e.get('recv_ty', '').startswith('&mut')) \
+                and not (callee.startswith('std::iter::Iterator::') and e['recv'].get('k') == 'MethodCall'):
             self.emit('mutcall', e, body, callee=callee, args=tuple(args), target=self.place_root(e['recv']),
                       place=self.place_text(e['recv']))
         elif e.get('callee_local'):
@@ -1394,6 +1486,24 @@ class Evaluator:
                 return ('max_by', self.as_iter(a0), self.lam(args[1], depth, 2))
             if name in ('count',):
                 return T.root(('count', self.as_iter(a0)))
+            if name == 'position' and len(args) == 2:
+                it0 = ('enumerate', self.as_iter(a0))
+                d = max(self.bvd, getattr(self.closure_obj(args[1]), 'bvd', 0) or 0)
+                old = self.bvd
+                self.bvd = d + 1
+                try:
+                    pred = self.apply(args[1], [T.proj(T.bv(d), 1)], depth)
+                finally:
+                    self.bvd = old
+                return ('optproj', ('first', it0, ('lam', d, pred)), 0)
+            if name == 'find' and len(args) == 2:
+                it0 = self.as_iter(a0)
+                return ('first', it0, self.lam(args[1], depth, 1, it0))
+            if name == 'next':
+                it0 = self.as_iter(a0)
+                f = self.first_of(it0)
+                if f is not None:
+                    return f
             if name in ('next', 'last', 'peek'):
                 return (name + 'of', self.as_iter(a0))
             if name in ('any', 'all') and len(args) == 2:
@@ -1453,7 +1563,13 @@ class Evaluator:
         # --- crate-local code
         b = self.crate.body(path)
         if b is not None and self.has_loop(b):
-            b = None    # a havocked loop gives no usable value: keep the call opaque (the callee is analysed on its own)
+            # a havocked loop gives no usable value; but if every loop of the callee reduces to a search / sum / max / min
+            # the callee has a value after all: try, and roll back otherwise
+            v = self.try_inline_loop_fn(b, path, args, node, body, depth) if (path not in NOINLINE and depth < self.max_depth and b.kind in ('Fn', 'AssocFn')
+                                                                         and not (b.raw.get('trait') and not b.raw.get('impl'))) else None
+            if v is not None:
+                return v
+            b = None    # keep the call opaque (the callee is analysed on its own)
         if b is not None and path not in NOINLINE and depth < self.max_depth and b.kind in ('Fn', 'AssocFn'):
             # trait *declarations* with default bodies stay opaque: dispatch is dynamic
             if b.raw.get('trait') and not b.raw.get('impl'):
@@ -1466,6 +1582,43 @@ class Evaluator:
         if path in NOINLINE and node is not None:
             self.trace.append(('call', node, (path, tuple(args))))
         return T.root(T.call(path, *[T.unroot(a) for a in args]))
+
+    def try_inline_loop_fn(self, b, path, args, node, body, depth):
+        if any(c == path for c, _, _ in self.stack):
+            return None
+        mark = len(self.events)
+        saved_hit = self.search_hit
+        self.stack.append((path, node if node is not None else {}, body))
+        try:
+            v = self.unwrap_ret(self.eval_body(b, args, depth + 1))
+        except RecursionError:
+            v = None
+        finally:
+            self.stack.pop()
+            self.search_hit = saved_hit
+        loops = [x for x in self.events[mark:] if x['kind'] == 'loop' and x['body'] == b.path]
+        bad = v is None or any(not x.get('reduced') for x in loops) or any(
+            isinstance(y, tuple) and y and y[0] in ('havoc', 'elemhavoc', 'loopval') for y in T.subterms(v))
+        if bad:
+            del self.events[mark:]
+            return None
+        return v
+
+    def loops_all_reducible(self, b):
+        """does every loop of b reduce (search / accumulator) when b is evaluated on symbolic arguments?"""
+        if not hasattr(self, '_reducible'):
+            self._reducible = {}
+        if b.path not in self._reducible:
+            self._reducible[b.path] = False     # guards against recursion
+            sub = Evaluator(self.crate, self.max_depth)
+            try:
+                v = sub.eval_body(b)
+                loops = [x for x in sub.events if x['kind'] == 'loop' and x['depth'] == 0]
+                self._reducible[b.path] = bool(loops) and all(x.get('reduced') for x in loops) and not any(
+                    isinstance(y, tuple) and y and y[0] in ('havoc', 'elemhavoc', 'loopval') for y in T.subterms(v))
+            except RecursionError:
+                pass
+        return self._reducible[b.path]
 
     def has_loop(self, b):
         if not hasattr(self, '_loopcache'):
@@ -1481,6 +1634,11 @@ class Evaluator:
 
     def opt_or(self, o, d):
         o = T.unroot(o)
+        if isinstance(o, tuple) and o and o[0] in ('optproj', 'optmap') and isinstance(o[1], tuple) and o[1] and o[1][0] == 'first':
+            F = o[1]
+            hit = ('case', F, 'Some', 0)
+            v = T.proj(hit, o[2]) if o[0] == 'optproj' else T.substitute(o[2][2], {T.bv(o[2][1]): hit})
+            return T.ite(('matches', F, 'Some'), v, d)
         if isinstance(o, tuple) and o and o[0] == 'maxof' and T.as_lin(d) == T.const(0):
             # max over a possibly empty set of non-negative values, 0 if empty  ==  max{0, max over the set}
             return T.tmax(T.const(0), T.root(o))
